@@ -389,8 +389,10 @@ impl Region {
             false
         };
 
-        let meta = self.meta();
-        let meta_flushed = meta.flush(self.index(), &regions)?;
+        // Do not keep the metadata lock across the file lock below: punch_holes takes them
+        // in the opposite order (file, then every region's metadata), and with a file
+        // grower queued in between the three wait for each other forever.
+        let meta_flushed = self.meta().flush(self.index(), &regions)?;
 
         // Data MUST be durable before metadata — if we crash after metadata sync
         // but before data sync, metadata could reference unwritten data.
